@@ -237,13 +237,19 @@ class Prop(core.Prop):
                     enc2 = np.append(np.asarray(tb[:, 0], 'd'), float(tb[-1, 1]))
                     # (the edges of neighbouring cells no longer meet; the closing edge of every cell but the
                     # last is not returned, so only begins + the last end are compared)
-                got2 = [rtime.tuple_of(t) for t in f.getTimes(bounds=mode.startswith('bounds'))]
                 want2 = [rtime.cf_decode(float(v), unit, refx, cal) for v in enc2]
+                if not all(_exists(w_) for w_ in want2):
+                    # the edited numbers name a date of the 365/366-day calendar that no python datetime can hold
+                    # (30 February): raising is an accepted outcome there, as in the first decode
+                    raise StopIteration
+                got2 = [rtime.tuple_of(t) for t in f.getTimes(bounds=mode.startswith('bounds'))]
                 if got2 != want2:
                     k_ = next(i for i, (a_, b_) in enumerate(zip(got2, want2)) if a_ != b_) if len(got2) == len(want2) else -1
                     vs.append(viol('stale-after-edit', sig, '%s: after editing the stored numbers in place element %d '
                                    'decodes to %r, the file says %r' % (units, k_, got2[k_] if k_ >= 0 else len(got2),
                                                                         want2[k_] if k_ >= 0 else len(want2)), **scope))
+            except StopIteration:
+                pass
             except Exception as e:
                 vs.append(viol('stale-after-edit', sig, 'decoding after an in-place edit raised %s: %r'
                                % (type(e).__name__, e), **scope))
